@@ -211,6 +211,8 @@ func (a *footnoteASTTransformer) Transform(node *gast.Document, reader text.Read
 		return
 	}
 
+	fnlist = renderedFootnoteLinks(list, fnlist)
+
 	counter := map[int]int{}
 	if fnlist != nil {
 		for _, fnlink := range fnlist {
@@ -267,6 +269,65 @@ func (a *footnoteASTTransformer) Transform(node *gast.Document, reader text.Read
 	}
 
 	node.AppendChild(node, list)
+}
+
+// renderedFootnoteLinks returns the links that will be rendered as links.
+// A link in the alternative text of an image is flattened to text, and a link
+// in the body of a footnote that no rendered link refers to disappears together
+// with that footnote. Footnotes referred to only by such links are treated as
+// unreferenced; the others keep their order and are numbered from 1.
+func renderedFootnoteLinks(list *ast.FootnoteList, fnlist []*ast.FootnoteLink) []*ast.FootnoteLink {
+	owners := make([]*ast.Footnote, len(fnlist)) // the footnote whose body holds the link
+	hidden := make([]bool, len(fnlist))          // the link is in the alternative text of an image
+	for i, l := range fnlist {
+		for p := l.Parent(); p != nil; p = p.Parent() {
+			if p.Kind() == gast.KindImage {
+				hidden[i] = true
+			}
+			if fn, ok := p.(*ast.Footnote); ok {
+				owners[i] = fn
+				break
+			}
+		}
+	}
+	live := map[int]bool{} // footnote indices with at least one rendered link
+	for changed := true; changed; {
+		changed = false
+		for i, l := range fnlist {
+			if hidden[i] || live[l.Index] || (owners[i] != nil && !live[owners[i].Index]) {
+				continue
+			}
+			live[l.Index] = true
+			changed = true
+		}
+	}
+	renumbered := map[int]int{}
+	for index := 1; index <= list.Count; index++ {
+		if live[index] {
+			renumbered[index] = len(renumbered) + 1
+		}
+	}
+	rendered := make([]*ast.FootnoteLink, 0, len(fnlist))
+	for i, l := range fnlist {
+		if !hidden[i] && (owners[i] == nil || live[owners[i].Index]) {
+			rendered = append(rendered, l)
+		}
+	}
+	for def := list.FirstChild(); def != nil; def = def.NextSibling() {
+		fn := def.(*ast.Footnote)
+		if index, ok := renumbered[fn.Index]; ok {
+			fn.Index = index
+		} else {
+			fn.Index = -1
+		}
+	}
+	for _, l := range fnlist {
+		if index, ok := renumbered[l.Index]; ok {
+			l.Index = index
+		}
+	}
+	list.Count = len(renumbered)
+	return rendered
 }
 
 // FootnoteConfig holds configuration values for the footnote extension.
